@@ -7,7 +7,7 @@ import GoluaVerif.Props.C02_Comp
 import GoluaVerif.Proofs.F64Lemmas
 namespace GoluaVerif.Proofs.ForLoop
 open GoluaVerif GoluaVerif.Spec GoluaVerif.Spec.For GoluaVerif.Proofs
-open GoluaVerif.Model.For (isLessThan isPositive isZero add advfor prepfor iter loopFrom)
+open GoluaVerif.Model.For (isLessThan isLessOrEqual isPositive isZero add advfor prepfor iter loopFrom)
 
 /-! ### 64-bit addition -/
 
@@ -75,6 +75,56 @@ theorem lt_int_lim (l : Num) (hn : l.isNaN = false) (x : I64) :
     omega
   · intro h1
     have h2 : -l.key / (F64.scale : Int) < -x.toInt := by omega
+    have := h.mp h2
+    rw [Int.neg_mul] at this; omega
+
+theorem num_le_int_int (x y : I64) : Num.le (.int x) (.int y) = decide (x.toInt ≤ y.toInt) := by
+  simp only [Num.le, Num.isNaN, Num.key, F64.intKey, Bool.not_false, Bool.true_and]
+  exact decide_eq_decide.mpr mul_scale_le
+
+theorem isLessOrEqual_exact (a b : Num) (ha : numWF a = true) (hb : numWF b = true) :
+    isLessOrEqual a b = Num.le a b := by
+  cases a with
+  | int x => cases b with
+    | int y => simp only [isLessOrEqual, num_le_int_int, BitVec.sle_eq_decide]
+    | flt g => exact Props.C02.le_int_float_exact x g hb
+  | flt f => cases b with
+    | int y => exact Props.C02.le_float_int_exact y f ha
+    | flt g => rfl
+
+theorem le_nan_right (a l : Num) (hn : l.isNaN = true) : Num.le a l = false := by
+  have : Num.le a l = (!a.isNaN && !l.isNaN && decide (a.key ≤ l.key)) := rfl
+  rw [this, hn]; simp
+
+theorem le_nan_left (a l : Num) (hn : l.isNaN = true) : Num.le l a = false := by
+  have : Num.le l a = (!l.isNaN && !a.isNaN && decide (l.key ≤ a.key)) := rfl
+  rw [this, hn]; simp
+
+/-- `x <= l` for an integer x is `x <= ⌊l⌋` -/
+theorem le_int_lim (l : Num) (hn : l.isNaN = false) (x : I64) :
+    Num.le (.int x) l = decide (x.toInt ≤ floorZ l) := by
+  have hk : Num.le (.int x) l = decide (x.toInt * (F64.scale : Int) ≤ l.key) := by
+    have : Num.le (.int x) l = (!(Num.int x).isNaN && !l.isNaN && decide ((Num.int x).key ≤ l.key)) := rfl
+    rw [this, hn]; rfl
+  rw [hk]
+  exact decide_eq_decide.mpr (Int.le_ediv_iff_mul_le scale_pos_int).symm
+
+/-- `l <= x` for an integer x is `⌈l⌉ <= x` -/
+theorem le_lim_int (l : Num) (hn : l.isNaN = false) (x : I64) :
+    Num.le l (.int x) = decide (ceilZ l ≤ x.toInt) := by
+  have hk : Num.le l (.int x) = decide (l.key ≤ x.toInt * (F64.scale : Int)) := by
+    have : Num.le l (.int x) = (!l.isNaN && !(Num.int x).isNaN && decide (l.key ≤ (Num.int x).key)) := rfl
+    rw [this, hn]; rfl
+  rw [hk]
+  apply decide_eq_decide.mpr
+  unfold ceilZ
+  have h := Int.le_ediv_iff_mul_le (a := -x.toInt) (b := -l.key) scale_pos_int
+  constructor
+  · intro h1
+    have : -x.toInt ≤ -l.key / (F64.scale : Int) := h.mpr (by rw [Int.neg_mul]; omega)
+    omega
+  · intro h1
+    have h2 : -x.toInt ≤ -l.key / (F64.scale : Int) := by omega
     have := h.mp h2
     rw [Int.neg_mul] at this; omega
 
@@ -153,8 +203,8 @@ theorem adv_pos_cont (cur d : I64) (hd : 0 < d.toInt) (lim : Int) (hlim : forlim
   have hadd := add_toInt_inrange cur d (by omega) (by omega)
   refine ⟨?_, hadd⟩
   simp only [advfor, add, isPositive_int, hd, decide_true, if_true]
-  rw [isLessThan_exact _ _ hwf rfl, isLessThan_exact _ _ rfl rfl, lt_lim_int l hn, num_lt_int_int, hadd]
-  have h1 : ¬ (floorZ l < cur.toInt + d.toInt) := by omega
+  rw [isLessOrEqual_exact _ _ rfl hwf, isLessThan_exact _ _ rfl rfl, le_int_lim l hn, num_lt_int_int, hadd]
+  have h1 : cur.toInt + d.toInt ≤ floorZ l := by omega
   have h2 : ¬ (cur.toInt + d.toInt < cur.toInt) := by omega
   simp [h1, h2]
 
@@ -164,7 +214,7 @@ theorem adv_pos_stop (cur d : I64) (hd : 0 < d.toInt) (lim : Int) (hlim : forlim
   have hc := toInt_range cur; have hdr := toInt_range d
   have hl := forlimit_pos hn hlim
   simp only [advfor, add, isPositive_int, hd, decide_true, if_true]
-  rw [isLessThan_exact _ _ hwf rfl, isLessThan_exact _ _ rfl rfl, lt_lim_int l hn, num_lt_int_int]
+  rw [isLessOrEqual_exact _ _ rfl hwf, isLessThan_exact _ _ rfl rfl, le_int_lim l hn, num_lt_int_int]
   obtain ⟨N, hN⟩ : ∃ N, (cur + d).toInt = N := ⟨_, rfl⟩
   rw [hN]
   by_cases hov : 9223372036854775808 ≤ cur.toInt + d.toInt
@@ -172,7 +222,7 @@ theorem adv_pos_stop (cur d : I64) (hd : 0 < d.toInt) (lim : Int) (hlim : forlim
     have h2 : N < cur.toInt := by omega
     simp [h2]
   · have hadd := add_toInt_inrange cur d (by omega) (by omega)
-    have h1 : floorZ l < N := by omega
+    have h1 : ¬ N ≤ floorZ l := by omega
     simp [h1]
 
 theorem adv_neg_cont (cur d : I64) (hd : d.toInt < 0) (lim : Int) (hlim : forlimit l false = some lim)
@@ -184,8 +234,8 @@ theorem adv_neg_cont (cur d : I64) (hd : d.toInt < 0) (lim : Int) (hlim : forlim
   refine ⟨?_, hadd⟩
   have hnp : ¬ (0 < d.toInt) := by omega
   simp only [advfor, add, isPositive_int, hnp, decide_false, Bool.false_eq_true, if_false]
-  rw [isLessThan_exact _ _ rfl hwf, isLessThan_exact _ _ rfl rfl, lt_int_lim l hn, num_lt_int_int, hadd]
-  have h1 : ¬ (cur.toInt + d.toInt < ceilZ l) := by omega
+  rw [isLessOrEqual_exact _ _ hwf rfl, isLessThan_exact _ _ rfl rfl, le_lim_int l hn, num_lt_int_int, hadd]
+  have h1 : ceilZ l ≤ cur.toInt + d.toInt := by omega
   have h2 : ¬ (cur.toInt < cur.toInt + d.toInt) := by omega
   simp [h1, h2]
 
@@ -196,7 +246,7 @@ theorem adv_neg_stop (cur d : I64) (hd : d.toInt < 0) (lim : Int) (hlim : forlim
   have hl := forlimit_neg hn hlim
   have hnp : ¬ (0 < d.toInt) := by omega
   simp only [advfor, add, isPositive_int, hnp, decide_false, Bool.false_eq_true, if_false]
-  rw [isLessThan_exact _ _ rfl hwf, isLessThan_exact _ _ rfl rfl, lt_int_lim l hn, num_lt_int_int]
+  rw [isLessOrEqual_exact _ _ hwf rfl, isLessThan_exact _ _ rfl rfl, le_lim_int l hn, num_lt_int_int]
   obtain ⟨N, hN⟩ : ∃ N, (cur + d).toInt = N := ⟨_, rfl⟩
   rw [hN]
   by_cases hov : cur.toInt + d.toInt < -9223372036854775808
@@ -204,7 +254,7 @@ theorem adv_neg_stop (cur d : I64) (hd : d.toInt < 0) (lim : Int) (hlim : forlim
     have h2 : cur.toInt < N := by omega
     simp [h2]
   · have hadd := add_toInt_inrange cur d (by omega) (by omega)
-    have h1 : N < ceilZ l := by omega
+    have h1 : ¬ ceilZ l ≤ N := by omega
     simp [h1]
 
 end step
@@ -369,11 +419,15 @@ theorem toInt_ne_zero {d : I64} (hd : d ≠ 0#64) : d.toInt ≠ 0 := by
 theorem beq_zero_false {d : I64} (hd : d ≠ 0#64) : (d == 0#64) = false := by
   simp [hd]
 
-section whole
-variable (s d : I64) (l : Num) (hd : d ≠ 0#64) (hwf : numWF l = true) (hn : l.isNaN = false)
-include hd hwf hn
+theorem count_nan (s d : I64) (l : Num) (hn : l.isNaN = true) : count s l d = 0 := by
+  unfold count forlimit
+  simp only [hn, if_true]
 
-/-- the start register after prepfor: nil exactly when the precomputed count is 0 -/
+section whole
+variable (s d : I64) (l : Num) (hd : d ≠ 0#64) (hwf : numWF l = true)
+include hd hwf
+
+/-- the start register after prepfor: nil exactly when the precomputed count is 0 (NaN limit included) -/
 theorem prepfor_int :
     prepfor (.num (.int s)) (.num l) (.num (.int d)) =
       .ok (if count s l d = 0 then none else some (.int s)) l (.int d) := by
@@ -381,43 +435,49 @@ theorem prepfor_int :
   simp only [prepfor, Val.toNum?, Model.For.unify, isZero, beq_zero_false hd, Bool.false_eq_true, if_false,
     isPositive_int]
   congr 1
+  cases hn : l.isNaN with
+  | true =>
+    rw [count_nan s d l hn]
+    rw [isLessOrEqual_exact _ _ rfl hwf, isLessOrEqual_exact _ _ hwf rfl, le_nan_right _ l hn, le_nan_left _ l hn]
+    simp
+  | false =>
   by_cases hpos : 0 < d.toInt
   · simp only [hpos, decide_true, if_true]
-    rw [isLessThan_exact _ _ hwf rfl, lt_lim_int l hn]
+    rw [isLessOrEqual_exact _ _ rfl hwf, le_int_lim l hn]
     unfold count
     simp only [hpos, decide_true, if_true]
     cases hlim : forlimit l true with
     | none =>
       have := forlimit_pos_none hn hlim
       have := toInt_range s
-      have h1 : floorZ l < s.toInt := by omega
+      have h1 : ¬ s.toInt ≤ floorZ l := by omega
       simp [h1]
     | some lim =>
       have hl := forlimit_pos hn hlim
       have := toInt_range s
-      by_cases h1 : floorZ l < s.toInt
-      · have h2 : lim < s.toInt := by omega
-        simp [h1, h2]
+      by_cases h1 : s.toInt ≤ floorZ l
       · have h2 : ¬ lim < s.toInt := by omega
+        simp [h1, h2]
+      · have h2 : lim < s.toInt := by omega
         simp [h1, h2]
   · have hneg : d.toInt < 0 := by omega
     simp only [hpos, decide_false, Bool.false_eq_true, if_false]
-    rw [isLessThan_exact _ _ rfl hwf, lt_int_lim l hn]
+    rw [isLessOrEqual_exact _ _ hwf rfl, le_lim_int l hn]
     unfold count
     simp only [hpos, decide_false, Bool.false_eq_true, if_false]
     cases hlim : forlimit l false with
     | none =>
       have := forlimit_neg_none hn hlim
       have := toInt_range s
-      have h1 : s.toInt < ceilZ l := by omega
+      have h1 : ¬ ceilZ l ≤ s.toInt := by omega
       simp [h1]
     | some lim =>
       have hl := forlimit_neg hn hlim
       have := toInt_range s
-      by_cases h1 : s.toInt < ceilZ l
-      · have h2 : s.toInt < lim := by omega
-        simp [h1, h2]
+      by_cases h1 : ceilZ l ≤ s.toInt
       · have h2 : ¬ s.toInt < lim := by omega
+        simp [h1, h2]
+      · have h2 : s.toInt < lim := by omega
         simp [h1, h2]
 
 theorem loop_int (cap : Nat) :
@@ -427,6 +487,10 @@ theorem loop_int (cap : Nat) :
   by_cases hc : count s l d = 0
   · rw [if_pos hc, loopFrom_none, hc]; simp
   · rw [if_neg hc]
+    have hn : l.isNaN = false := by
+      cases hh : l.isNaN with
+      | false => rfl
+      | true => exact absurd (count_nan s d l hh) hc
     by_cases hpos : 0 < d.toInt
     · unfold count at hc ⊢
       simp only [hpos, decide_true, if_true] at hc ⊢
@@ -459,6 +523,10 @@ theorem iter_int (k : Nat) :
   by_cases hc : count s l d = 0
   · rw [if_pos hc, iter_none, hc]; simp
   · rw [if_neg hc]
+    have hn : l.isNaN = false := by
+      cases hh : l.isNaN with
+      | false => rfl
+      | true => exact absurd (count_nan s d l hh) hc
     by_cases hpos : 0 < d.toInt
     · unfold count at hc ⊢
       simp only [hpos, decide_true, if_true] at hc ⊢
